@@ -331,7 +331,7 @@ pub fn build(
             continue;
         };
 
-        let mut add_functions = |functions: &[Function]| {
+        let mut add_functions = |functions: &[Function]| -> anyhow::Result<()> {
             for function in functions.iter().filter(|f| f.is_public()) {
                 let mut function = function.clone();
                 let original_name = function.name.clone();
@@ -339,6 +339,16 @@ pub fn build(
                     // `original_name` may be a raw identifier, which cannot appear inside a name
                     let unprefixed_name = original_name.strip_prefix("r#").unwrap_or(&original_name);
                     function.name = format!("{}_{}", base_name, unprefixed_name);
+                    if associated_functions_used_names.contains(&function.name) {
+                        anyhow::bail!(
+                            "function `{}` of base `{}` cannot be re-exposed in type `{}`: both `{}` and `{}` are already defined",
+                            original_name,
+                            base_name,
+                            resolvee_path,
+                            original_name,
+                            function.name
+                        );
+                    }
                 }
                 // A function without a receiver cannot go through the base field;
                 // it keeps its own body, which has the same effect.
@@ -348,15 +358,16 @@ pub fn build(
                 associated_functions_used_names.insert(function.name.clone());
                 associated_functions.push(function);
             }
+            Ok(())
         };
 
         // Push this base's associated functions into the type
-        add_functions(&base_type.associated_functions);
+        add_functions(&base_type.associated_functions)?;
 
         if i > 0 {
             // Inject all non-first-base vfuncs into the type
             if let Some(vftable) = &base_type.vftable {
-                add_functions(&vftable.functions);
+                add_functions(&vftable.functions)?;
             }
         }
     }
